@@ -13,6 +13,7 @@ import (
 	"fmt"
 	"log"
 	"net/netip"
+	"slices"
 	"sort"
 	"strings"
 	"sync"
@@ -297,7 +298,30 @@ func c12Prop(k *verifkit.Kit) func(c c12Case) error {
 		if np, nr := len(c12Pick(c.Ours, "prefix"))*len(c12Pick(c.Theirs, "prefix")), len(c12Pick(c.Ours, "route"))*len(c12Pick(c.Theirs, "route")); np > 16 || nr > 16 {
 			cls = append(cls, "more-than-16-option-pairs-of-a-kind")
 		}
+		// the other router may list one prefix (or route) in several options: every copy is compared with ours, and an
+		// inconsistency of any copy must be reported; how often a label that several copies give rise to is counted
+		// the statement does not say, so with such copies the labels are compared as sets
+		dupTheirs := false
+		for _, kind := range []string{"prefix", "route"} {
+			seen := map[string]bool{}
+			for _, o := range c12Pick(c.Theirs, kind) {
+				if seen[o.Prefix] {
+					dupTheirs = true
+				}
+				seen[o.Prefix] = true
+			}
+		}
+		if dupTheirs {
+			cls = append(cls, "received-RA-repeats-a-prefix-or-route")
+			k.Unspecified("C12 multiplicity of a label when the received RA repeats a prefix or route")
+		}
 		k.Record(c, both >= 1 || len(want) > 0, cls...)
+		c12Multiset := func(ls []c12Label, drop map[string]bool) string {
+			if !dupTheirs {
+				return c12Multiset(ls, drop)
+			}
+			return strings.Join(slices.Compact(strings.Fields(c12Multiset(ls, drop))), " ")
+		}
 		wantS := c12Multiset(want, drop)
 
 		ours := c.Ours.ndp()
@@ -369,7 +393,7 @@ func c12Prop(k *verifkit.Kit) func(c c12Case) error {
 				dropped++
 			}
 		}
-		if nlog-dropped != len(strings.Fields(wantS)) {
+		if !dupTheirs && nlog-dropped != len(strings.Fields(wantS)) {
 			return verifkit.Violf("C12/log-lines", "want %d 'inconsistency N:' log lines, got %d:\n%s", len(strings.Fields(wantS)), nlog-dropped, logs.String())
 		}
 		// ... and each line names the field and the details (the prefix or route concerned) of its own
@@ -444,12 +468,12 @@ var c12Servers = [][]string{{"2001:db8::53"}, {"2001:db8::53", "2001:db8::54"}, 
 var c12Domains = [][]string{{"lan"}, {"lan", "example.com"}, {"example.com", "lan"}, {"corp.example.net"}}
 
 func c12GenOpt(t *rapid.T, kind string, pool []string) vOpt {
-	life := rapid.SampledFrom([]int64{0, 600, 1800, 86400}).Draw(t, kind+"-life")
+	life := rapid.SampledFrom([]int64{0, 600, 1800, 86400, 1, 599, 601, 65535, 4294967294, 4294967295}).Draw(t, kind+"-life")
 	switch kind {
 	case "prefix":
-		v := rapid.SampledFrom([]int64{600, 1800, 86400, 4294967295}).Draw(t, "valid")
+		v := rapid.SampledFrom([]int64{600, 1800, 86400, 4294967295, 600, 1800, 1, 601, 4294967294, 0}).Draw(t, "valid")
 		return vOpt{Kind: kind, Prefix: rapid.SampledFrom(pool).Draw(t, "prefix"), OnLink: rapid.Bool().Draw(t, "l"), Auto: rapid.Bool().Draw(t, "a"),
-			ValidS: v, PrefS: rapid.SampledFrom([]int64{300, 600, v}).Draw(t, "pref")}
+			ValidS: v, PrefS: max(0, min(v, rapid.SampledFrom([]int64{300, 600, v, 0, 1, 599, v - 1}).Draw(t, "pref")))}
 	case "route":
 		return vOpt{Kind: kind, Prefix: rapid.SampledFrom(pool).Draw(t, "rprefix"), RPref: rapid.SampledFrom([]int{0, 1, 3}).Draw(t, "rpref"), LifeS: life}
 	case "rdnss":
@@ -457,27 +481,30 @@ func c12GenOpt(t *rapid.T, kind string, pool []string) vOpt {
 	case "dnssl":
 		return vOpt{Kind: kind, LifeS: life, Domains: rapid.SampledFrom(c12Domains).Draw(t, "domains")}
 	case "mtu":
-		return vOpt{Kind: kind, MTU: rapid.SampledFrom([]uint32{1280, 1500, 9000}).Draw(t, "mtu")}
+		return vOpt{Kind: kind, MTU: rapid.SampledFrom([]uint32{1280, 1500, 9000, 1280, 1500, 1, 1499, 1501, 65535, 65536, 4294967295}).Draw(t, "mtu")}
 	case "cp":
 		return vOpt{Kind: kind, URI: rapid.SampledFrom([]string{"https://a.example/", "https://b.example/", "urn:ietf:params:capport:unrestricted"}).Draw(t, "uri")}
 	case "lla":
 		return vOpt{Kind: kind, MTU: uint32(rapid.IntRange(1, 3).Draw(t, "mac"))}
 	case "pref64":
-		return vOpt{Kind: kind, Prefix: "64:ff9b::/96", LifeS: rapid.SampledFrom([]int64{600, 1800}).Draw(t, "p64life")}
+		return vOpt{Kind: kind, Prefix: "64:ff9b::/96", LifeS: rapid.SampledFrom([]int64{600, 1800, 0, 8, 65528}).Draw(t, "p64life")}
 	}
 	return vOpt{Kind: "raw"}
 }
 
 func c12GenRA(t *rapid.T, theirs bool, pool []string) vRA {
 	r := vRA{
-		Hop:       rapid.SampledFrom([]uint8{0, 64, 64, 255}).Draw(t, "hop"),
-		M:         rapid.Bool().Draw(t, "m"),
-		O:         rapid.Bool().Draw(t, "o"),
-		Pref:      rapid.SampledFrom([]int{0, 1, 3}).Draw(t, "pref"),
-		LifeS:     rapid.SampledFrom([]int64{0, 1800, 9000}).Draw(t, "life"),
+		Hop:   rapid.SampledFrom([]uint8{0, 64, 64, 255}).Draw(t, "hop"),
+		M:     rapid.Bool().Draw(t, "m"),
+		O:     rapid.Bool().Draw(t, "o"),
+		Pref:  rapid.SampledFrom([]int{0, 1, 3}).Draw(t, "pref"),
+		LifeS: rapid.SampledFrom([]int64{0, 1800, 9000, 1, 1799, 65535}).Draw(t, "life"),
 		// the two timers travel in milliseconds: values within one second of each other, sub-second and large ones
 		ReachMS:   rapid.SampledFrom([]int64{0, 0, 1000, 30000, 1200, 1800, 250, 3600000}).Draw(t, "reach"),
 		RetransMS: rapid.SampledFrom([]int64{0, 0, 1000, 5000, 1001, 1999, 500, 1}).Draw(t, "retrans"),
+	}
+	if rapid.IntRange(0, 2).Draw(t, "anyhop") == 0 {
+		r.Hop = rapid.Uint8().Draw(t, "hopv")
 	}
 	kinds := []string{"prefix", "prefix", "route", "route", "rdnss", "rdnss", "dnssl", "dnssl", "mtu", "cp", "lla", "pref64"}
 	if theirs {
@@ -489,6 +516,7 @@ func c12GenRA(t *rapid.T, theirs bool, pool []string) vRA {
 		nopts = rapid.IntRange(6, 30).Draw(t, "noptslarge")
 	}
 	usedP, usedR, single := map[string]bool{}, map[string]bool{}, map[string]bool{}
+	repeats := theirs && rapid.IntRange(0, 2).Draw(t, "repeats") == 0
 	for i, n := 0, nopts; i < n; i++ {
 		kind := rapid.SampledFrom(kinds).Draw(t, "kind")
 		o := c12GenOpt(t, kind, pool)
@@ -506,13 +534,13 @@ func c12GenRA(t *rapid.T, theirs bool, pool []string) vRA {
 			return false
 		}
 		switch kind {
-		case "prefix": // one option per prefix within an RA (pairs are matched by prefix)
-			if usedP[o.Prefix] || overlaps(usedP) {
+		case "prefix": // ours: one option per prefix (a configuration cannot repeat one); another router may repeat
+			if (usedP[o.Prefix] && !(theirs && repeats)) || overlaps(usedP) {
 				continue
 			}
 			usedP[o.Prefix] = true
 		case "route":
-			if usedR[o.Prefix] || overlaps(usedR) {
+			if (usedR[o.Prefix] && !(theirs && repeats)) || overlaps(usedR) {
 				continue
 			}
 			usedR[o.Prefix] = true
@@ -539,12 +567,28 @@ func c12Gen(t *rapid.T) c12Case {
 	}
 	ours := c12GenRA(t, false, pool)
 	var theirs vRA
+	repeats := false
 	if rapid.Bool().Draw(t, "derive") {
 		// theirs = ours with a few edits: keeps many aspects present on both sides
 		b, _ := json.Marshal(ours)
 		_ = json.Unmarshal(b, &theirs)
 		for i, n := 0, rapid.IntRange(0, 3+len(pool)/4).Draw(t, "nedits"); i < n; i++ {
-			switch rapid.IntRange(0, 7).Draw(t, "edit") {
+			switch rapid.IntRange(0, 8).Draw(t, "edit") {
+			case 8:
+				// a second option for a prefix / route the RA already lists, with values of its own, anywhere in the RA
+				if len(theirs.Opts) > 0 {
+					j := rapid.IntRange(0, len(theirs.Opts)-1).Draw(t, "ecopy")
+					if o := theirs.Opts[j]; o.Kind == "prefix" || o.Kind == "route" {
+						o2 := c12GenOpt(t, o.Kind, pool)
+						o2.Prefix = o.Prefix
+						if rapid.Bool().Draw(t, "samepref") {
+							o2.RPref = o.RPref
+						}
+						at := rapid.IntRange(0, len(theirs.Opts)).Draw(t, "ecopyat")
+						theirs.Opts = slices.Insert(slices.Clone(theirs.Opts), at, o2)
+						repeats = true
+					}
+				}
 			case 0:
 				theirs.Hop = rapid.SampledFrom([]uint8{0, 64, 255}).Draw(t, "ehop")
 			case 1:
@@ -580,7 +624,7 @@ func c12Gen(t *rapid.T) c12Case {
 		var opts []vOpt
 		for _, o := range theirs.Opts {
 			key := o.Kind + o.Prefix
-			if (o.Kind == "prefix" || o.Kind == "route") && seen[key] {
+			if (o.Kind == "prefix" || o.Kind == "route") && seen[key] && !repeats {
 				continue
 			}
 			seen[key] = true
